@@ -241,6 +241,10 @@ def train_off_policy(
         pop_fps = []
         for agent_idx, agent in enumerate(pop):  # Loop through population
             state, info = env.reset()  # Reset environment at start of episode
+            if n_step_memory is not None:
+                # A new rollout starts here: the transitions of the previous one (another
+                # agent's, or the previous generation's) must not be fused with it
+                n_step_memory.reset_n_step_buffer()
             if swap_channels:
                 state = obs_channels_to_first(state)
             scores = np.zeros(num_envs)
